@@ -14,6 +14,7 @@ import (
 	"sync"
 	"time"
 
+	appsv1 "k8s.io/api/apps/v1"
 	corev1 "k8s.io/api/core/v1"
 	netv1 "k8s.io/api/networking/v1"
 	metav1 "k8s.io/apimachinery/pkg/apis/meta/v1"
@@ -47,6 +48,11 @@ func (o obj) k8s() runtime.Object {
 		var cps []corev1.ContainerPort
 		for _, cp := range o.pod.Ports {
 			cps = append(cps, corev1.ContainerPort{Name: cp.Name, ContainerPort: int32(cp.Num), Protocol: corev1.Protocol(cp.Proto)})
+		}
+		if o.pod.Kind == "Deployment" {
+			return &appsv1.Deployment{TypeMeta: metav1.TypeMeta{Kind: "Deployment", APIVersion: "apps/v1"}, ObjectMeta: metav1.ObjectMeta{Name: o.pod.Name, Namespace: o.pod.NS},
+				Spec: appsv1.DeploymentSpec{Template: corev1.PodTemplateSpec{ObjectMeta: metav1.ObjectMeta{Labels: o.pod.Labels},
+					Spec: corev1.PodSpec{Containers: []corev1.Container{{Name: "c", Ports: cps}}}}}}
 		}
 		p := &corev1.Pod{ObjectMeta: metav1.ObjectMeta{Name: o.pod.Name, Namespace: o.pod.NS, Labels: o.pod.Labels},
 			Spec:   corev1.PodSpec{Containers: []corev1.Container{{Name: "c", Ports: cps}}},
@@ -96,6 +102,9 @@ func objects() []obj {
 		mkpod("http80", "default", "p3", "rs2", map[string]string{"app": "b"}, 80),
 		mkpod("http8080", "default", "p3", "rs2", map[string]string{"app": "b"}, 8080),
 		mkpod("noowner", "default", "p4", "", map[string]string{"app": "b"}, 80),
+		// a workload object (InsertObject accepts them; DeleteObject does not, so there is no delete operation for it); its pod is default/d1-1
+		{kind: "Deployment", key: "Deployment/default/d1", variant: "http80", pod: &wm.Workload{Kind: "Deployment", NS: "default", Name: "d1", Labels: map[string]string{"app": "b"}, Ports: []wm.CPort{{Name: "http", Num: 80}}}},
+		{kind: "Deployment", key: "Deployment/default/d1", variant: "http8080", pod: &wm.Workload{Kind: "Deployment", NS: "default", Name: "d1", Labels: map[string]string{"app": "b"}, Ports: []wm.CPort{{Name: "http", Num: 8080}}}},
 		{kind: "NetworkPolicy", key: "NetworkPolicy/default/n1", variant: "v1-namespace-omitted", np: &wm.NP{NS: "", Name: "n1", PodSel: wm.Sel{}, Types: []string{"Ingress"},
 			Ingress: []wm.NPRule{{Peers: []wm.NPPeer{{NSSel: wm.ML("team", "x"), Pod: wm.ML("app", "a")}}, Ports: []wm.NPPort{{HasPort: true, Name: "http"}}}}}},
 		{kind: "NetworkPolicy", key: "NetworkPolicy/default/n1", variant: "v2", np: &wm.NP{NS: "default", Name: "n1", PodSel: wm.Sel{}, Types: []string{"Ingress"},
@@ -108,7 +117,7 @@ func objects() []obj {
 	}
 }
 
-var queries = [][4]string{{"a/p1", "default/p3", "tcp", "80"}, {"a/p1", "default/p3", "tcp", "8080"}, {"a/p2", "default/p3", "tcp", "80"}, {"default/p3", "a/p1", "tcp", "80"}, {"a/p1", "default/p4", "tcp", "80"}, {"a/p1", "a/p2", "tcp", "8080"}}
+var queries = [][4]string{{"a/p1", "default/p3", "tcp", "80"}, {"a/p1", "default/p3", "tcp", "8080"}, {"a/p2", "default/p3", "tcp", "80"}, {"default/p3", "a/p1", "tcp", "80"}, {"a/p1", "default/p4", "tcp", "80"}, {"a/p1", "a/p2", "tcp", "8080"}, {"a/p1", "default/d1-1", "tcp", "80"}}
 
 func ops() []op {
 	var res []op
@@ -117,7 +126,7 @@ func ops() []op {
 	}
 	seen := map[string]bool{}
 	for _, o := range objects() {
-		if !seen[o.key] {
+		if !seen[o.key] && o.kind != "Deployment" {
 			seen[o.key] = true
 			res = append(res, op{name: "del:" + o.key, o: o})
 			if o.kind == "ANP" || o.kind == "NetworkPolicy" || o.kind == "Pod" && o.pod.Name == "p1" {
@@ -130,7 +139,7 @@ func ops() []op {
 		res = append(res, op{name: "q:" + strings.Join(q[:], ","), query: &q})
 	}
 	objs := objects()
-	res = append(res, op{name: "setresources:nsA(team=y)+p3(http8080)+n1(v2)", bulk: []obj{objs[1], objs[8], objs[11]}}, op{name: "clearresources", clear: true})
+	res = append(res, op{name: "setresources:nsA(team=y)+p3(http8080)+n1(v2)", bulk: []obj{objs[1], objs[8], objs[13]}}, op{name: "clearresources", clear: true})
 	return res
 }
 
@@ -175,7 +184,7 @@ func (m model) fresh() (*eval.PolicyEngine, error) {
 	pe := eval.NewPolicyEngine()
 	pe.VerifCacheDebug(false)
 	keys := m.sortedKeys()
-	for _, kind := range []string{"Namespace", "Pod", "NetworkPolicy"} {
+	for _, kind := range []string{"Namespace", "Pod", "Deployment", "NetworkPolicy"} {
 		for _, k := range keys {
 			if m[k].kind == kind {
 				if err := pe.InsertObject(m[k].k8s()); err != nil {
@@ -305,7 +314,7 @@ func trimStack(s string) string {
 
 func podIndex(w *wm.World, name string) int {
 	for i, p := range w.WLs {
-		if p.NS+"/"+p.Name == name {
+		if p.Kind == "Pod" && p.NS+"/"+p.Name == name || p.Kind != "Pod" && p.NS+"/"+p.Name+"-1" == name {
 			return i
 		}
 	}
